@@ -8,7 +8,7 @@
  *   - a reported failure (NULL, -1, callback with an error status, events_run() == -1) needs a refused request
  *   - no sanitizer report / abort; the data that does get through is the right data (BAD=... otherwise)
  *   - after `end` (objects released with their normal calls, exit handlers run) no library block is live
- *  (2) start / registration / teardown calls one at a time (`nr_start nr_cancel nw_* na_* nc_* nbr_* nbw_* hq_*`,
+ *  (2) start / registration / teardown calls one at a time (`nr_start nr_cancel nw_* na_* nc_* nbr_* nbw_* hq_* hqs_start`,
  *      component `upstart`): no event-loop pass in between, so they are deterministic and are compared in
  *      lock-step with lean/Percival/Model/AllocFail.lean (`pmodel upmodel`).  L2 = number of live library
  *      blocks, the sizes of the requests made during the op in order (hence their number), which descriptors
@@ -76,6 +76,23 @@ __wrap_poll(struct pollfd * p, nfds_t n, int timeout)
 {
 
 	return (__real_poll(p, n, (timeout < 0 || timeout > 1) ? 1 : timeout));
+}
+
+/*
+ * strdup() made by library code (https_request's copy of the host name, aws_sign, sock_addr_prettyprint) is an
+ * allocation like any other: counted, failed and tracked through malloc (link with --wrap=strdup; inside libc / ASan
+ * it would bypass the wrappers).
+ */
+char * __wrap_strdup(const char *);
+char *
+__wrap_strdup(const char * s)
+{
+	size_t n = strlen(s) + 1;
+	char * p = malloc(n);
+
+	if (p != NULL)
+		memcpy(p, s, n);
+	return (p);
 }
 
 /* time(): fixed, so that a reference run of aws_sign_* and the run under faults produce the same strings */
@@ -828,15 +845,23 @@ fine_op(void)
 		h_nbw[h] = NULL;
 		h_nbw_reserved[h] = 0;
 		BB(h_nbw_pending[h] = h_nbw_inflight[h] = 0);
-	} else if (hc_is("hq_start", 3)) {
-		/* hq_start <h> <pattern> <pathlen>: GET /ppp… with two headers */
+	} else if (hc_is("hq_start", 3) || hc_is("hqs_start", 4)) {
+		/*
+		 * hq_start <h> <pattern> <pathlen>: GET /ppp… with two headers.
+		 * hqs_start <h> <pattern> <pathlen> <hostlen>: the same through https_request() with a host name of
+		 * <hostlen> characters (the caller's copy is an exact-size block, freed right after the call: the
+		 * library must have duplicated it).  No event-loop pass, so no TLS traffic: the request stays in
+		 * "connecting" until it is cancelled with hq_cancel.
+		 */
 		static struct http_header hdrs[2] = { { "Host", "x" }, { "Connection", "close" } };
 		static char path[300];
 		struct http_request req;
 		size_t pl = strtoull(hc_tok[3], NULL, 10);
+		int isssl = hc_tok[0][2] == 's';
+		size_t hl = isssl ? strtoull(hc_tok[4], NULL, 10) : 0;
 
 		h = objidx(hc_tok[1]);
-		if (h < 0 || h_http[h] != NULL || strlen(hc_tok[2]) > 8 || pl > 256) {
+		if (h < 0 || h_http[h] != NULL || strlen(hc_tok[2]) > 8 || pl > 256 || hl > 256) {
 			printf("skip");
 			return (1);
 		}
@@ -846,7 +871,15 @@ fine_op(void)
 		req.method = "GET"; req.path = path; req.nheaders = 2; req.headers = hdrs;
 		req.bodylen = 0; req.body = NULL;
 		h_http_sas[h] = mk_sas(hc_tok[2]);
-		LIB(h_http[h] = http_request(h_http_sas[h], &req, 1000, cb_never_http, NULL));
+		if (isssl) {
+			char * host = malloc(hl + 1);
+
+			memset(host, 'h', hl);
+			host[hl] = '\0';
+			LIB(h_http[h] = https_request(h_http_sas[h], &req, 1000, cb_never_http, NULL, host));
+			free(host);
+		} else
+			LIB(h_http[h] = http_request(h_http_sas[h], &req, 1000, cb_never_http, NULL));
 		if (h_http[h] == NULL) {
 			failed = 1;
 			sock_addr_freelist(h_http_sas[h]);
